@@ -483,4 +483,103 @@ theorem chunks_prefix : ∀ (parts : List Bytes) (k j : Nat),
       have h2 : (p :: ps).flatten.take (p.length + m) = p ++ ps.flatten.take m := by
         rw [List.flatten_cons, List.take_append, List.take_of_length_le (Nat.le_add_right _ _), Nat.add_sub_cancel_left]
       rw [h1, h2, he]
+theorem writeAt_mid (a h rest d : Bytes) (hd : d.length ≤ h.length) :
+    writeAt (a ++ h ++ rest) a.length d = a ++ (d ++ h.drop d.length) ++ rest := by
+  by_cases hne : d = []
+  · rw [hne]; simp [writeAt]
+  · unfold writeAt
+    have hl : ¬ ((a ++ h ++ rest).length < a.length) := by simp
+    simp only [hne, ↓reduceIte, hl]
+    have t1 : (a ++ h ++ rest).take a.length = a := by
+      rw [List.append_assoc]; exact List.take_left' rfl
+    have t2 : (a ++ h ++ rest).drop (a.length + d.length) = h.drop d.length ++ rest := by
+      rw [List.append_assoc, ← List.drop_drop, List.drop_left' rfl, List.drop_append_of_le_length hd]
+    rw [t1, t2]; simp
+
+/-- Every crash image of the final header write (two writes: 16 bytes of characteristics at 11, 24 bytes of
+    offsets at 27) over a zeroed header slot: the first `m` bytes of the header, the rest still zero. -/
+theorem crashImage_header (H : V2Header) (rest : Bytes) (k j : Nat) :
+    ∃ m, m ≤ 40 ∧ crashImage (pragma ++ zeros 40 ++ rest) (headerEvs H) k j
+      = pragma ++ (H.bytes.take m ++ zeros (40 - m)) ++ rest := by
+  have hp : pragma.length = 11 := by decide
+  have c16l : (le64 H.charHi ++ le64 H.charLo).length = 16 := by simp [le64_length]
+  have f24l : (le64 H.dataOffset ++ le64 H.dataSize ++ le64 H.indexOffset).length = 24 := by simp [le64_length]
+  have hb : H.bytes = (le64 H.charHi ++ le64 H.charLo) ++ (le64 H.dataOffset ++ le64 H.dataSize ++ le64 H.indexOffset) := by
+    simp [V2Header.bytes]
+  have hev : headerEvs H = [.write 11 (le64 H.charHi ++ le64 H.charLo),
+      .write 27 (le64 H.dataOffset ++ le64 H.dataSize ++ le64 H.indexOffset)] := by
+    unfold headerEvs; rw [chunkEvs_cons, chunkEvs_cons]; simp [chunkEvs, c16l]
+  rw [hev]
+  cases k with
+  | zero =>
+    refine ⟨min j 16, by omega, ?_⟩
+    simp only [crashImage, List.take_zero, List.nil_append, List.getElem?_cons_zero, WriteEv.cut]
+    by_cases hj : j = 0
+    · subst hj; simp [applyWrites, zeros]
+    · simp only [hj, ↓reduceIte, applyWrites, List.foldl_cons, List.foldl_nil, WriteEv.apply]
+      have hd : ((le64 H.charHi ++ le64 H.charLo).take j).length ≤ (zeros 40).length := by
+        simp only [zeros, List.length_replicate, List.length_take, c16l]; omega
+      have := writeAt_mid pragma (zeros 40) rest ((le64 H.charHi ++ le64 H.charLo).take j) hd
+      rw [hp] at this
+      rw [this]
+      have e1 : H.bytes.take (min j 16) = (le64 H.charHi ++ le64 H.charLo).take j := by
+        rw [hb, List.take_append_of_le_length (by rw [c16l]; exact Nat.min_le_right _ _)]
+        by_cases h : j ≤ 16
+        · rw [Nat.min_eq_left h]
+        · rw [Nat.min_eq_right (by omega), List.take_of_length_le (by omega), List.take_of_length_le (by omega)]
+      have e2 : (zeros 40).drop ((le64 H.charHi ++ le64 H.charLo).take j).length = zeros (40 - min j 16) := by
+        simp only [zeros, List.drop_replicate, List.length_take, c16l]
+      rw [e1, e2]
+  | succ k =>
+    have h1 : WriteEv.apply (pragma ++ zeros 40 ++ rest) (.write 11 (le64 H.charHi ++ le64 H.charLo))
+        = (pragma ++ (le64 H.charHi ++ le64 H.charLo)) ++ zeros 24 ++ rest := by
+      simp only [WriteEv.apply]
+      have hd : (le64 H.charHi ++ le64 H.charLo).length ≤ (zeros 40).length := by
+        simp only [zeros, List.length_replicate, c16l]; omega
+      have := writeAt_mid pragma (zeros 40) rest (le64 H.charHi ++ le64 H.charLo) hd
+      rw [hp] at this
+      rw [this, c16l]; simp [zeros]
+    rw [crashImage_cons_succ, h1]
+    cases k with
+    | zero =>
+      refine ⟨16 + min j 24, by omega, ?_⟩
+      simp only [crashImage, List.take_zero, List.nil_append, List.getElem?_cons_zero, WriteEv.cut]
+      by_cases hj : j = 0
+      · subst hj
+        simp only [↓reduceIte, applyWrites, List.foldl_nil, Nat.zero_min, Nat.add_zero]
+        rw [hb, List.take_left' c16l]; simp [zeros]
+      · simp only [hj, ↓reduceIte, applyWrites, List.foldl_cons, List.foldl_nil, WriteEv.apply]
+        have hd : ((le64 H.dataOffset ++ le64 H.dataSize ++ le64 H.indexOffset).take j).length ≤ (zeros 24).length := by
+          simp only [zeros, List.length_replicate, List.length_take, f24l]; omega
+        have hal : (pragma ++ (le64 H.charHi ++ le64 H.charLo)).length = 27 := by simp [hp, c16l]
+        have := writeAt_mid (pragma ++ (le64 H.charHi ++ le64 H.charLo)) (zeros 24) rest
+          ((le64 H.dataOffset ++ le64 H.dataSize ++ le64 H.indexOffset).take j) hd
+        rw [hal] at this
+        rw [this]
+        have e1 : H.bytes.take (16 + min j 24)
+            = (le64 H.charHi ++ le64 H.charLo) ++ (le64 H.dataOffset ++ le64 H.dataSize ++ le64 H.indexOffset).take j := by
+          rw [hb, List.take_append, List.take_of_length_le (by rw [c16l]; omega), c16l, Nat.add_sub_cancel_left]
+          congr 1
+          by_cases h : j ≤ 24
+          · rw [Nat.min_eq_left h]
+          · rw [Nat.min_eq_right (by omega), List.take_of_length_le (by omega), List.take_of_length_le (by omega)]
+        have e2 : (zeros 24).drop ((le64 H.dataOffset ++ le64 H.dataSize ++ le64 H.indexOffset).take j).length
+            = zeros (40 - (16 + min j 24)) := by
+          simp only [zeros, List.drop_replicate, List.length_take, f24l]; congr 1; omega
+        rw [e1, e2]; simp
+    | succ k =>
+      refine ⟨40, by omega, ?_⟩
+      rw [crashImage_cons_succ]
+      have h2 : WriteEv.apply ((pragma ++ (le64 H.charHi ++ le64 H.charLo)) ++ zeros 24 ++ rest)
+          (.write 27 (le64 H.dataOffset ++ le64 H.dataSize ++ le64 H.indexOffset))
+          = pragma ++ H.bytes ++ rest := by
+        simp only [WriteEv.apply]
+        have hd : (le64 H.dataOffset ++ le64 H.dataSize ++ le64 H.indexOffset).length ≤ (zeros 24).length := by
+          simp only [zeros, List.length_replicate, f24l]; omega
+        have hal : (pragma ++ (le64 H.charHi ++ le64 H.charLo)).length = 27 := by simp [hp, c16l]
+        have := writeAt_mid (pragma ++ (le64 H.charHi ++ le64 H.charLo)) (zeros 24) rest _ hd
+        rw [hal] at this
+        rw [this, f24l, hb]; simp [zeros]
+      rw [h2]
+      simp [crashImage, applyWrites, V2Header.bytes_length, zeros, List.take_of_length_le]
 end Car
